@@ -213,14 +213,21 @@ func runWindow(cfg *hx.RunCfg) error {
 			}
 			res <- st
 		}()
+		early := -2
 		select {
 		case <-atDial:
+		case early = <-res:
+			// since e5418a8 serveRouted answers a request without a route itself: it never reaches the Transport
 		case <-time.After(5 * time.Second):
-			return fmt.Errorf("gated replay: request never reached DialContext")
+			return fmt.Errorf("gated replay: request neither reached DialContext nor was answered")
 		}
 		atomic.StoreInt32(&gateOn, 0)
 		_ = rp.Register(rc) // the route appears between routing decision and dial
-		goOn <- struct{}{}
+		if early == -2 {
+			goOn <- struct{}{}
+		} else {
+			res <- early
+		}
 		select {
 		case <-arrived: // dialled through the new route: reaches backend 1, held there
 			caseOps = append(caseOps, fmt.Sprintf("(HBeginRaced 1 0 0 %s %s [] true (HRegister %s [] [] 1), HReached 1)", hh, hx.HxS("/"), hh))
